@@ -372,7 +372,7 @@ class LocksEngine:
             if okc and not bad_audit:
                 proof_ok, plog, axioms, n_stmt, n_qed = C.props_assumptions(pid)
             A = analyse(scratch, known)
-            include_c06 = os.environ.get("VERIF_LOCKS_C06_IN_C10", "1") != "0"
+            include_c06 = os.environ.get("VERIF_LOCKS_C06_IN_C10", "0") != "0"
             race_runs, race_reports, confirmed = 0, 0, {}
             if not A["ok"] or not proof_ok or bad_audit:
                 what = A["log"] if not A["ok"] else ("audit: " + "; ".join(bad_audit[:5]) if bad_audit else "Props_C10.v no longer checks:\n" + plog[-3000:])
